@@ -497,6 +497,91 @@ def make_case(seed, index, tier, max_nest):
     return c
 
 
+def application_variants(res, rng, n):
+    """MetaModules as applications make them: a template copied with copy.copy for every track (the copies attached and
+    saved), and instances of an application subclass that behaves as the sequence of its exposed controllers (len() is the
+    count - zero for a rack without knobs), at top level and inside another MetaModule's project."""
+    import copy
+    import rv.api as api
+    from rv.modules import MODULE_CLASSES
+    originals = dict(MODULE_CLASSES)
+
+    def template(cls, knobs, volume, tag):
+        inner = api.Project()
+        inner.name = f"inner {tag}"
+        amp = inner.new_module(api.m.Amplifier, volume=volume)
+        amp >> inner.output
+        mm = cls(project=inner, name=f"Rack {tag}")
+        mm.user_defined_controllers = knobs
+        for i in range(knobs):
+            mm.mappings.values[i] = mm.Mapping((amp.index, (0, 2, 5, 1)[i % 4]))
+            mm.user_defined[i].label = f"Knob {i}"
+        mm.update_user_defined_controllers()
+        if knobs:
+            mm.user_defined_1 = 111
+            amp.volume = 200
+        return mm
+
+    def facts(mod):
+        if not isinstance(mod, api.m.MetaModule):
+            return ("not a MetaModule", repr(mod))
+        n = mod.user_defined_controllers
+        return (n, [c.label for c in mod.user_defined[:n + 1]], [(x.module, x.controller) for x in mod.mappings.values[:n + 1]],
+                len([1 for nm, c in mod.controllers.items() if c.attached(mod)]), [mod.get_raw(f"user_defined_{i + 1}") for i in range(n)],
+                mod.project.name, [None if x is None else (type(x).__name__, x.name) for x in mod.project.modules],
+                mod.project.modules[1].volume if len(mod.project.modules) > 1 and mod.project.modules[1] is not None else None)
+    try:
+        for k in range(n):
+            Rack = type("MetaModule", (api.m.MetaModule,), {"__len__": lambda self: self.user_defined_controllers,
+                                                            "__iter__": lambda self: iter(self.user_defined[:self.user_defined_controllers]),
+                                                            "__module__": api.m.MetaModule.__module__, "__doc__": api.m.MetaModule.__doc__})
+            MODULE_CLASSES.clear()
+            MODULE_CLASSES.update(originals)
+            knobs = rng.choice([0, 0, 1, 3])
+            kind = rng.choice(("copy.copy", "falsy-subclass", "falsy-subclass-nested"))
+            case = {"family": "application-variants", "kind": kind, "knobs": knobs}
+            res.case(("application-variants", kind, knobs, k))
+            res.count("application_variant_cases")
+            res.hist("application_variant_kinds", f"{kind}:{knobs}")
+            try:
+                outer = api.Project()
+                if kind == "copy.copy":
+                    t = template(api.m.MetaModule, max(1, knobs), 300 + k, k)
+                    mods = []
+                    for j in range(2):
+                        cp = copy.copy(t)
+                        cp.name = f"copy {j}"
+                        outer.attach_module(cp)
+                        mods.append(cp)
+                else:
+                    mods = [template(Rack, knobs, 300 + k, k), template(Rack, 2, 123, "two")]
+                    if kind == "falsy-subclass-nested":
+                        mid = api.Project()
+                        for mm in mods:
+                            mid.attach_module(mm)
+                        outer.attach_module(api.m.MetaModule(project=mid))
+                    else:
+                        for mm in mods:
+                            outer.attach_module(mm)
+                want = [facts(mm) for mm in mods]
+                loaded = workload.load(outer.read())
+                holder = loaded.modules[1].project if kind == "falsy-subclass-nested" else loaded
+                got = [facts(holder.modules[mm.index]) if mm.index < len(holder.modules) else ("missing",) for mm in mods]
+                alone = [facts(workload.load(api.Synth(mm).read()).module) for mm in mods]
+            except Exception as e:
+                res.violation(f"C15:application-variant-raises:{kind}:{workload.exc_key(e)}", f"{kind} ({knobs} knobs): {e!r}", case)
+                continue
+            for w, g, a in zip(want, got, alone):
+                if w != g or w != a:
+                    where = "in-project" if w != g else "stand-alone"
+                    bad = g if w != g else a
+                    res.violation(f"C15:application-variant:{kind}", f"{kind} ({knobs} knobs), {where}: the object shows {w}, the file gives {bad}", case)
+                    break
+    finally:
+        MODULE_CLASSES.clear()
+        MODULE_CLASSES.update(originals)
+
+
 def run_shard(spec_, res):
     monitors.install()
     for i in range(spec_["start"], spec_["start"] + spec_["count"]):
@@ -513,6 +598,7 @@ def run_shard(spec_, res):
     import random as _random
     nested_repoint(res, _random.Random(spec_["seed"] * 31 + spec_["shard"]), 40 if spec_["tier"] == "quick" else 400)
     constructor_count(res, _random.Random(spec_["seed"] * 37 + spec_["shard"]), 12 if spec_["tier"] == "quick" else 60)
+    application_variants(res, _random.Random(spec_["seed"] * 41 + spec_["shard"]), 12 if spec_["tier"] == "quick" else 100)
     for name, msg in monitors.take_failures():
         res.violation(f"C15:ambient:{name}", msg, {"monitor": name})
     res.exhaustive = True
